@@ -12,8 +12,9 @@ RULE = ("queries: multisets of <=3 timestamps, sources: multisets of <=4 timesta
         "configurations (sources without duplicates); TsGroup.value_from member-wise. Every case is compared with the "
         "property's definition (set of admissible source samples per query) and, at kernel level, with the Lean model of "
         "jitvaluefrom. distinct = distinct (queries, sources, set, mode)")
-PROVED = "vfT_window: the index chosen for a query is NaN or lies in the source window of the same epoch; other epochs' entries untouched (all sizes, all modes, all ties)"
-NOT_PROVED = "per-mode optimality (nearest / latest-before / earliest-after), _value_from glue (NaN / dtype handling), interpolate: oracle + correspondence only"
+PROVED = ("vfT_window: the index chosen for a query is NaN or lies in the source window of the same epoch; other epochs' entries untouched "
+          "(all sizes, all modes, all ties); vfT_closest: mode closest returns a nearest sample of the epoch (vfInner_closest, left_invariant)")
+NOT_PROVED = "modes before / after (latest-before / earliest-after, NaN when none), _value_from glue (NaN / dtype handling), interpolate: oracle + correspondence only"
 ASSUMPTIONS = ["both series sorted, ep canonical"]
 MODES = ["before", "closest", "after"]
 
